@@ -201,7 +201,8 @@ class MCLevyCopulaSimulation:
                 for j in range(i + 1, dimension):
                     adj_matrix[i, j] = adj_matrix[j, i] = next(outputs)
 
-        variance_matrix = np.dot(adj_matrix, adj_matrix.T) + model_variance
+        # adj_matrix already holds (co)variances of the small jumps, not standard deviations
+        variance_matrix = adj_matrix + model_variance
         diffusion_matrix = scipy.linalg.sqrtm(variance_matrix)
         self.diffusion_matrix = diffusion_matrix
 
